@@ -39,6 +39,7 @@ Record inv1 (s : st) (tr : list obs) : Prop := {
   i_B : invB s;
   i_nocrash : ~ In OCrash tr;
   i_H : invH s tr;
+  i_Le : locLe s tr;
   i_C : no_reuse tr -> locC s tr
 }.
 
@@ -49,16 +50,18 @@ Proof.
   - intros _ k c H; destruct H.
   - intros H; destruct H.
   - reflexivity.
+  - intros i. simpl. lia.
   - intros _ i. reflexivity.
 Qed.
 
 Lemma inv1_step : forall s tr c s' o, inv1 s tr -> step s c = Some (s', o) -> inv1 s' (tr ++ o).
 Proof.
-  intros s tr c s' o [HA HB Hnc HH HC] H; constructor.
+  intros s tr c s' o [HA HB Hnc HH HLe HC] H; constructor.
   - eapply invA_step; eauto.
   - eapply invB_step; eauto.
   - rewrite in_app_iff; intros [Hc|Hc]; [auto | eapply step_no_crash; eauto].
   - eapply invH_step; eauto.
+  - eapply locLe_step; eauto.
   - intros Hnr. apply no_reuse_app in Hnr. destruct Hnr as [Hn1 Hn2].
     eapply locC_step; eauto.
 Qed.
@@ -99,7 +102,7 @@ Theorem one_result_all : forall s0 sched, let tr := trace step (init s0) sched i
   no_reuse tr ->
   NoDup (returned tr) /\ forall i, In i (returned tr) -> exists c, In (OCall c) tr /\ c_id c = i.
 Proof.
-  intros s0 sched tr Hnr. destruct (inv1_all s0 sched) as [HA HB Hnc HH HC]. fold tr in HH, HC, Hnc.
+  intros s0 sched tr Hnr. destruct (inv1_all s0 sched) as [HA HB Hnc HH HLe HC]. fold tr in HH, HC, Hnc.
   specialize (HC Hnr). split.
   - apply cnt_nodup. intros i. specialize (HC i). destruct (Nat.ltb _ _); lia.
   - intros i Hi. apply cnt_in in Hi. specialize (HC i).
@@ -107,6 +110,13 @@ Proof.
     unfold invH in HH.
     assert (Hin : In i (map c_id (calls tr))) by (rewrite HH; apply in_seq; lia).
     apply in_map_iff in Hin. destruct Hin as [c [Hc Hin]]. exists c. split; auto. now apply calls_in.
+Qed.
+
+(* without any hypothesis: nobody is answered twice (a reused serial loses a caller, it never duplicates one) *)
+Theorem nodup_returned_all : forall s0 sched, NoDup (returned (trace step (init s0) sched)).
+Proof.
+  intros s0 sched. pose proof (i_Le _ _ (inv1_all s0 sched)) as HLe.
+  apply cnt_nodup. intros i. specialize (HLe i). destruct (Nat.ltb _ _); lia.
 Qed.
 
 (* in a quiescent state every call has returned, except commands without a timeout waiting on a live,
@@ -119,7 +129,7 @@ Theorem quiescent_all : forall s0 sched,
     (exists k c', In (k, c') (rec s) /\ c_id c' = c_id c /\ c_tmo c' = false /\
                   stop_closed s = false /\ rd s = RRun /\ wr s = WsRun).
 Proof.
-  intros s0 sched s tr Hnr Q c Hc. destruct (inv1_all s0 sched) as [HA HB Hnc HH HC].
+  intros s0 sched s tr Hnr Q c Hc. destruct (inv1_all s0 sched) as [HA HB Hnc HH HLe HC].
   fold tr in HH, HC, Hnc. fold s in HA, HB, HH, HC. specialize (HC Hnr (c_id c)).
   assert (Hlt : (c_id c < ncalls s)%nat).
   { apply calls_in in Hc. unfold invH in HH.
@@ -588,7 +598,7 @@ Proof. intros tr k c F (a1 & a2 & -> & _). apply in_app_iff. right; left; auto. 
 Lemma just_step : forall s tr c s' o, inv2 s tr -> no_reuse tr -> step s c = Some (s', o) ->
   ~ In OReuse o -> justified_from tr o.
 Proof.
-  intros s tr c s' o [[HA HB Hnc0 HH HC] HG4 HG1 HD [HG5a HG5b] [HG6 HG6r] (HSr & HSp & HSc)] Hnr0 H Hnr.
+  intros s tr c s' o [[HA HB Hnc0 HH HLe HC] HG4 HG1 HD [HG5a HG5b] [HG6 HG6r] (HSr & HSp & HSc)] Hnr0 H Hnr.
   specialize (HC Hnr0).
   assert (Hnc := step_no_crash _ _ _ _ HA H).
   assert (Hstopreg : stop_closed s = true -> registered_after tr = false).
@@ -953,4 +963,32 @@ Proof.
     exists (c :: sched). split; [constructor; auto|]. split.
     + unfold final in *. simpl. rewrite E. destruct (run step s' sched). exact HQ.
     + simpl. lia.
+Qed.
+
+(* fairness-free form of "a quiescent state is reached": a run of server steps that has not reached a quiescent
+   state has executed fewer than [measure s] steps - so every run that keeps executing enabled server steps is
+   quiescent after at most [measure s] of them *)
+Lemma executed_measure : forall sched s, Forall (fun c => internal c = true) sched ->
+  (executed s sched + measure (final step s sched) <= measure s)%nat.
+Proof.
+  induction sched as [|c t IH]; intros s HF; simpl; [unfold final; simpl; lia|].
+  inversion HF as [|? ? Hc Ht]; subst. unfold final in *. simpl.
+  destruct (step s c) as [[s' o]|] eqn:E.
+  - pose proof (measure_step _ _ _ _ Hc E). specialize (IH s' Ht).
+    destruct (run step s' t) as [s'' o'] eqn:Er. simpl in *. lia.
+  - apply IH; auto.
+Qed.
+
+Lemma measure_zero_quiescent : forall s, measure s = 0%nat -> quiescent s.
+Proof.
+  intros s Hm c Hi. destruct (step s c) as [[s' o]|] eqn:E; auto.
+  pose proof (measure_step _ _ _ _ Hi E). lia.
+Qed.
+
+Theorem not_quiescent_few_steps : forall sched s, Forall (fun c => internal c = true) sched ->
+  ~ quiescent (final step s sched) -> (executed s sched < measure s)%nat.
+Proof.
+  intros sched s HF Hq. pose proof (executed_measure sched s HF) as H.
+  destruct (measure (final step s sched)) eqn:E; [|lia].
+  exfalso. apply Hq. now apply measure_zero_quiescent.
 Qed.
